@@ -71,6 +71,12 @@ def junk_events_xlsx(rng, pfx):
     q = (pfx + ":") if pfx else ""
     return rng.choice([[], [], [O], [T("\n  ")], [T("\n"), O, T(" ")],
                        [S("extLst"), S("ext", [("uri", "{a&b}")]), E("ext"), E("extLst")],
+                       # what Excel 2013+ writes: an extension element that shares the local name
+                       # of the main namespace's workbookPr and has no date1904 attribute
+                       [S("extLst"), S("ext", [("uri", "{140A7094-0E35-4892-8432-C4D2E57EDEB5}")]),
+                        S("x15:workbookPr", [("chartTrackingRefBase", "1")]), E("x15:workbookPr"),
+                        E("ext"), E("extLst")],
+                       [S("x15:workbookPr"), E("x15:workbookPr")],
                        [S(q + "bookViews"), S(q + "workbookView", [("xWindow", "0")]),
                         E(q + "workbookView"), E(q + "bookViews")],
                        [S(q + "sheetsX"), E(q + "sheetsX"), C("sheet")]])
